@@ -1654,6 +1654,9 @@ pub fn run_bare(focus: &'static str, seed: u64, index: u64, args: &Args) -> Case
     let ops = args.u64("ops", 200);
     let keys = args.u64("keys", 3);
     let miri = args.u64("miri", 0) == 1;
+    // (under Miri the delays inside user code are switched off: its clock is virtual and a spin on it only costs interpreter time)
+    #[cfg(feature = "typed")]
+    if miri { crate::typed::set_user_perturbation(1, 0); }
     let sutcfg = SutCfg { counters: 16, capacity: 4, max_weight: if rng.chance(1, 2) { 120 } else { 100_000 }, shards: 2, cmd_buf: if miri { 4 } else { *rng.pick(&[1usize, 2, 8]) }, pool: 1,
         buf: if miri { 2 } else { *rng.pick(&[1usize, 2]) }, tick: Duration::from_millis(if miri { 5 } else { 1 }), weight_mode: WeightMode::Custom,
         hash_mode: if rng.chance(1, 3) { HashMode::Constant } else { HashMode::Default }, start_ns: rt::START_NS };
